@@ -17,6 +17,9 @@ def hashByName (n : String) : Option (Key → Nat) :=
   else if n == "b0" then some fun k => match k with | [] => 0 | b :: _ => b.toNat % 2
   else if n == "fnv" then some fun k => k.foldl (fun h b => Nat.xor ((h * 1099511628211) % 2 ^ 64) b.toNat) 14695981039346656037
   else if n == "big" then some fun k => (2 ^ 64 - 1 - sum k)
+  -- nil hash function = murmur3 in the implementation: not modelled; by C20_refines every answer is independent of the
+  -- hash function, so any function gives the model's answers (dumps are reduced to `ln=` by the harness)
+  else if n == "nil" then some fun _ => 0
   else none
 
 def outStr : Out → String
@@ -64,13 +67,54 @@ def opClass (c : Cfg) : Tok → String
   | .op .len => "len"
   | .op .full => "full"
 
+/-- position of key `k` in its bucket chain of the model state: for the tag histogram only -/
+def chainPos (hash : Key → Nat) (s : HS) (k : Key) : String :=
+  let rec walk : Nat → Option Nat → List Nat
+    | _, none => []
+    | 0, _ => []
+    | f + 1, some i => i :: walk f (nextOf s.next i)
+  let ch := walk s.cap (s.ha.getD (bucket hash s k) none)
+  match ch.findIdx? (fun n => keyOf s.keys n == k) with
+  | none => "rm-miss"
+  | some i =>
+    (if i == 0 then "rm-head" else if i + 1 == ch.length then "rm-tail" else "rm-mid") ++
+    (if ch.length ≥ 3 then "3+" else "")
+
+def poolOutStr : PoolOut → String
+  | .ok => "ok" | .errIndex => "err:index" | .errSize => "err:size"
+
+/-- `P,n=..,es=..,fix=..;set:<i>:<hex>;get:<i>;max` on the flat byte pools -/
+def runPool (cfgs : String) (toks : List String) (impl : String) : Ans :=
+  let kvs := cfgs.splitOn ","
+  match (cfgField kvs "n").toNat?, (cfgField kvs "es").toNat? with
+  | some n, some es =>
+    let fixed := cfgField kvs "fix" == "1"
+    let rec go (p : FlatPool) : List String → List String
+      | [] => []
+      | t :: r =>
+        match t.splitOn ":" with
+        | ["set", i, h] =>
+          match i.toNat?, bytesOfHex h with
+          | some i, some k => let x := p.trySet fixed i k; poolOutStr x.2 :: go x.1 r
+          | _, _ => ["bad-op"]
+        | ["get", i] => match i.toNat? with | some i => hexField (p.get i) :: go p r | none => ["bad-op"]
+        | ["max"] => toString p.size :: go p r
+        | _ => ["bad-op"]
+    let m := ";".intercalate ("P" :: go (FlatPool.new n es fixed) toks)
+    -- the pool laws (C20_pool_*) are theorems about this model; the oracle is the model itself
+    { model := m, verdict := if impl == m then "ok" else "FAIL:pool", tags := ["pool", if fixed then "pool-fixed" else "pool-var"] ++
+        (if m.contains "err:index" then ["pool-err-index"] else []) ++ (if m.contains "err:size" then ["pool-err-size"] else []) }
+  | _, _ => { model := "bad-op", verdict := "skip" }
+
 def run (op impl : String) : Ans :=
   if impl.startsWith "HANG" then { model := "-", verdict := "FAIL:hang", tags := ["hang"] } else
   if impl.startsWith "PANIC" then { model := "-", verdict := "FAIL:panic", tags := ["panic"] } else
   match op.splitOn ";" with
   | [] => { model := "bad-op", verdict := "skip" }
   | cfgs :: toks =>
+    if cfgs.startsWith "P," then runPool cfgs toks impl else
     let kvs := cfgs.splitOn ","
+    let nilHash := cfgField kvs "h" == "nil"
     match (cfgField kvs "n").toNat?, (cfgField kvs "es").toNat?, hashByName (cfgField kvs "h"), toks.mapM parseTok with
     | some cap, some es, some hash, some ts =>
       let fixed := cfgField kvs "fix" == "1"
@@ -80,16 +124,19 @@ def run (op impl : String) : Ans :=
         { model := "new:err", verdict := if impl == "new:err" then "ok" else "FAIL:new", tags := ["new-err"] }
       | some s0 =>
         -- model outputs (dump is answered from the model state)
+        let obs := fun (o : Op) (len : Nat) => match o with
+          | .add _ | .rm _ | .ex _ => "/" ++ toString len ++ "/" ++ (if len ≥ cap then "1" else "0")
+          | _ => ""
         let rec go (s : HS) : List Tok → List String
           | [] => []
-          | .dump :: r => dumpStr s :: go s r
-          | .op o :: r => let x := step hash s o; outStr x.2 :: go x.1 r
+          | .dump :: r => (if nilHash then "ln=" ++ toString s.len else dumpStr s) :: go s r
+          | .op o :: r => let x := step hash s o; (outStr x.2 ++ obs o x.1.len) :: go x.1 r
         let model := ";".intercalate ("new:ok" :: go s0 ts)
         -- spec outputs (dump is outside the specification: the implementation's answer is skipped)
         let rec sp (l : List Key) : List Tok → List (Option String)
           | [] => []
           | .dump :: r => none :: sp l r
-          | .op o :: r => let x := specStep c l o; some (outStr x.2) :: sp x.1 r
+          | .op o :: r => let x := specStep c l o; some (outStr x.2 ++ obs o x.1.length) :: sp x.1 r
         let want := sp [] ts
         let got := impl.splitOn ";"
         let verdict :=
@@ -101,14 +148,20 @@ def run (op impl : String) : Ans :=
             | some x => "FAIL:" ++ opClass c x.1.1
         let nAdd := ts.countP fun t => match t with | .op (.add _) => true | _ => false
         let nRm := ts.countP fun t => match t with | .op (.rm _) => true | _ => false
-        let outs := go s0 ts
-        let tags :=
+        let outs := (go s0 ts).map fun o => (o.splitOn "/").headD ""
+        let rec pos (s : HS) : List Tok → List String
+          | [] => []
+          | .dump :: r => pos s r
+          | .op o :: r =>
+            (match o with | .rm k => (if validKey es fixed k then [chainPos hash s k] else []) | _ => []) ++ pos (step hash s o).1 r
+        let posTags := if nilHash then [] else (pos s0 ts).eraseDups
+        let tags := posTags ++
           (if nAdd > 0 && nRm > 0 then ["nt"] else []) ++
           [if fixed then "fixed" else "var", "h=" ++ cfgField kvs "h"] ++
           (if outs.contains "err:full" then ["hit-full"] else []) ++
           (if outs.contains "err:len" then ["hit-len"] else []) ++
           (if ts.any (fun t => (opClass c t) == "add-short-fixed") then ["add-short-fixed"] else []) ++
-          (if cap ≤ 2 then ["cap<=2"] else [])
+          (if cap ≤ 2 then ["cap<=2"] else []) ++ (if cap > 16 then ["cap>16"] else [])
         { model := model, verdict := verdict, tags := tags }
     | _, _, _, _ => { model := "bad-op", verdict := "skip" }
 
